@@ -120,6 +120,12 @@ def explore(ctx):
             lines.append(server(rng, "v%d" % n)); n += 1
         for _ in range({"quick": 40, "thorough": 600, "search": 100}[tier]):
             lines.append(server_burst(rng, "b%d" % n)); n += 1
+    if not ctx.get("replay"):
+        k = 0
+        for rep in range({"quick": 2, "thorough": 20, "search": 4}[tier]):
+            for when in ("inflight", "afterwrite"):
+                for how in ("cancel", "deadline"):
+                    lines.append("e2ec y%d when=%s how=%s" % (k, when, how)); k += 1
     triples, tie = C.run_both(ctx, "TestVerifScn", lines, go_timeout=1500)
     if not ctx.get("replay"):
         # the serving-side families once more on a single P: a different, much coarser interleaving of the receive
